@@ -23,8 +23,25 @@ type PubSub[T any] struct {
 	PubTimeoutAfter time.Duration // times out Pub & PubWait, if positive
 	DefaultBuffer   int
 
-	subs  []chan T
+	subs  []*subscription[T]
 	mutex sync.RWMutex
+}
+
+// subscription is a subscribed channel together with what is needed to
+// unsubscribe it while events are still on their way to it.
+type subscription[T any] struct {
+	ch chan T
+	// done is closed when the subscription is removed. It wakes senders that are
+	// waiting for a receiver, so that the channel is never closed under a sender.
+	done chan struct{}
+	// senders counts the sender goroutines of Pub, PubSlice, PubWait and
+	// PubSliceWait that have been started for this subscription and have not
+	// finished yet. The channel is closed only after they have.
+	senders sync.WaitGroup
+}
+
+func newSubscription[T any](size int) *subscription[T] {
+	return &subscription[T]{ch: make(chan T, size), done: make(chan struct{})}
 }
 
 // Pub sends the event to all subscriptions in their own goroutines and returns
@@ -32,7 +49,8 @@ type PubSub[T any] struct {
 func (o *PubSub[T]) Pub(ev T) {
 	o.mutex.RLock()
 	for _, sub := range o.subs {
-		go o.send(ev, sub, o.PubTimeoutAfter, o.OnPubTimeout)
+		sub.senders.Add(1)
+		go o.sendAsync(ev, sub, o.PubTimeoutAfter, o.OnPubTimeout)
 	}
 	o.mutex.RUnlock()
 }
@@ -44,7 +62,8 @@ func (o *PubSub[T]) PubSlice(evs []T) {
 	o.mutex.RLock()
 	for _, ev := range evs {
 		for _, sub := range o.subs {
-			go o.send(ev, sub, o.PubTimeoutAfter, o.OnPubTimeout)
+			sub.senders.Add(1)
+			go o.sendAsync(ev, sub, o.PubTimeoutAfter, o.OnPubTimeout)
 		}
 	}
 	o.mutex.RUnlock()
@@ -57,6 +76,7 @@ func (o *PubSub[T]) PubWait(ev T) {
 	o.mutex.RLock()
 	wg.Add(len(o.subs))
 	for _, sub := range o.subs {
+		sub.senders.Add(1)
 		go o.sendWaitGroup(ev, sub, o.PubTimeoutAfter, o.OnPubTimeout, &wg)
 	}
 	o.mutex.RUnlock()
@@ -72,6 +92,7 @@ func (o *PubSub[T]) PubSliceWait(evs []T) {
 	wg.Add(len(o.subs) * len(evs))
 	for _, ev := range evs {
 		for _, sub := range o.subs {
+			sub.senders.Add(1)
 			go o.sendWaitGroup(ev, sub, o.PubTimeoutAfter, o.OnPubTimeout, &wg)
 		}
 	}
@@ -104,15 +125,34 @@ func (o *PubSub[T]) PubSliceSync(evs []T) {
 	o.mutex.RUnlock()
 }
 
-func (o *PubSub[T]) send(ev T, sub chan T, timeout time.Duration, onTimeout func(T)) {
-	if !SendTimeout(sub, ev, timeout) && onTimeout != nil {
-		onTimeout(ev)
+// send hands the event to the subscription, gives up after the timeout (if
+// positive), and drops the event if the subscription is removed meanwhile.
+func (o *PubSub[T]) send(ev T, sub *subscription[T], timeout time.Duration, onTimeout func(T)) {
+	var timeoutC <-chan time.Time
+	if timeout > 0 {
+		timer := time.NewTimer(timeout)
+		defer timer.Stop()
+		timeoutC = timer.C
+	}
+	select {
+	case sub.ch <- ev:
+	case <-sub.done:
+	case <-timeoutC:
+		if onTimeout != nil {
+			onTimeout(ev)
+		}
 	}
 }
 
-func (o *PubSub[T]) sendWaitGroup(ev T, sub chan T, timeout time.Duration, onTimeout func(T), wg *sync.WaitGroup) {
+func (o *PubSub[T]) sendAsync(ev T, sub *subscription[T], timeout time.Duration, onTimeout func(T)) {
+	defer sub.senders.Done()
 	o.send(ev, sub, timeout, onTimeout)
-	wg.Done()
+}
+
+func (o *PubSub[T]) sendWaitGroup(ev T, sub *subscription[T], timeout time.Duration, onTimeout func(T), wg *sync.WaitGroup) {
+	defer wg.Done()
+	defer sub.senders.Done()
+	o.send(ev, sub, timeout, onTimeout)
 }
 
 // WithOnly returns a new publisher that only contains the given subscription
@@ -125,7 +165,7 @@ func (o *PubSub[T]) WithOnly(sub <-chan T) *PubSub[T] {
 		PubTimeoutAfter: o.PubTimeoutAfter,
 	}
 	for _, s := range o.subs {
-		if s == sub {
+		if s.ch == sub {
 			clone.subs = append(clone.subs, s)
 		}
 	}
@@ -137,20 +177,20 @@ func (o *PubSub[T]) WithOnly(sub <-chan T) *PubSub[T] {
 // size for this PubSub. If no default is configured, the buffer size will be 0.
 func (o *PubSub[T]) Sub() <-chan T {
 	o.mutex.Lock()
-	sub := make(chan T, o.DefaultBuffer)
+	sub := newSubscription[T](o.DefaultBuffer)
 	o.subs = append(o.subs, sub)
 	o.mutex.Unlock()
-	return sub
+	return sub.ch
 }
 
 // SubBuf subscribes to events in a newly created channel with a specified
 // buffer size.
 func (o *PubSub[T]) SubBuf(size int) <-chan T {
 	o.mutex.Lock()
-	sub := make(chan T, size)
+	sub := newSubscription[T](size)
 	o.subs = append(o.subs, sub)
 	o.mutex.Unlock()
-	return sub
+	return sub.ch
 }
 
 // Unsub unsubscribes a previously subscribed channel.
@@ -159,30 +199,45 @@ func (o *PubSub[T]) Unsub(sub <-chan T) error {
 		return ErrSubscriptionNotInitalized
 	}
 	o.mutex.Lock()
-	defer o.mutex.Unlock()
 	idx := o.subIndex(sub)
 	if idx == -1 {
+		o.mutex.Unlock()
 		return ErrAlreadyUnsubscribed
 	}
-	close(o.subs[idx])
+	removed := o.subs[idx]
 	o.subs = append(o.subs[:idx], o.subs[idx+1:]...)
+	close(removed.done)
+	o.mutex.Unlock()
+	removed.close()
 	return nil
+}
+
+// close closes the channel of a removed subscription once the sender
+// goroutines that were started for it have finished (they are woken by done, so
+// this does not wait for a receiver).
+func (s *subscription[T]) close() {
+	s.senders.Wait()
+	close(s.ch)
 }
 
 // UnsubAll unsubscribes all subscription channels, rendering them all useless.
 func (o *PubSub[T]) UnsubAll() error {
 	o.mutex.Lock()
-	for _, ch := range o.subs {
-		close(ch)
-	}
+	removed := o.subs
 	o.subs = nil
+	for _, sub := range removed {
+		close(sub.done)
+	}
 	o.mutex.Unlock()
+	for _, sub := range removed {
+		sub.close()
+	}
 	return nil
 }
 
 func (o *PubSub[T]) subIndex(sub <-chan T) int {
-	for i, ch := range o.subs {
-		if ch == sub {
+	for i, s := range o.subs {
+		if s.ch == sub {
 			return i
 		}
 	}
